@@ -38,6 +38,7 @@ CUSTOM_TYPE = 'application/x-c04'
 BOOM_TYPE = 'application/x-c04-boom'
 NOPE_TYPE = 'application/x-nope'
 CUSTOM_PREFIX = b'C04!'
+PARAM_TYPE = 'application/vnd.c04+yaml; version=2; profile=full'
 
 BUILTIN_ROOTS = {'Exception': Exception, 'ValueError': ValueError, 'LookupError': LookupError,
                  'KeyError': KeyError, 'RuntimeError': RuntimeError,
@@ -62,6 +63,7 @@ class Ctl:
         self.log = []
         self.sites = []
         self.harness_error = None
+        self.not_constructible = None
 
     def begin(self, plan):
         self.plan = {}
@@ -69,6 +71,7 @@ class Ctl:
             self.plan[site] = (preset, exc)
         self.log = []
         self.sites = []
+        self.not_constructible = None
 
     def at(self, site, resp):
         render, exc = self._enter(site, resp)
@@ -111,11 +114,20 @@ class Ctl:
         if exc is not None:
             try:
                 inst = self.prog.make_exc(exc)
-            except Exception as ex:  # noqa - a harness problem must not be mistaken for a raised error
-                self.harness_error = 'cannot build %r: %r' % (exc, ex)
-                return
+            except Exception as ex:  # noqa
+                self.construction_failed(exc, ex, site)
+                raise       # what the application's ``raise falcon.X(...)`` statement would do
             self.log.append(('raise', site, inst, exc))
             raise inst
+
+    def construction_failed(self, spec, ex, where):
+        """falcon's own constructor refused documented arguments (-> reported as a finding by run_program);
+        anything else is a harness problem (-> the shard is inconclusive, never a verdict)"""
+        cls = self.prog.resolve(spec['cls'])
+        if falcon_root(cls) is not None and not isinstance(ex, BrokenGeneratedClass):
+            self.not_constructible = {'exception': spec, 'raised_instead': repr(ex), 'where': where}
+        else:
+            self.harness_error = 'cannot build %r: %r' % (spec, ex)
 
 
 def apply_preset(resp, preset):
@@ -261,6 +273,10 @@ def well_formed(inst):
     return all(hasattr(inst, n) for n in names)
 
 
+class BrokenGeneratedClass(Exception):
+    """harness-side problem: a generated class hierarchy builds an incomplete instance"""
+
+
 class Program:
     def __init__(self, spec):
         self.spec = spec
@@ -304,6 +320,9 @@ class Program:
         if self.cfg.get('boom'):
             opts.media_handlers[BOOM_TYPE] = BoomHandler(self.ctl)
             self.custom_types.add(BOOM_TYPE)
+        if self.cfg.get('param_media'):
+            opts.media_handlers[PARAM_TYPE] = C04Handler()
+            self.custom_types.add(PARAM_TYPE)
         if self.cfg.get('odd_handler_key'):
             opts.media_handlers[self.cfg['odd_handler_key']] = C04Handler()
         # the stock response handlers for forms can be dropped (in place, or by installing a new Handlers object),
@@ -349,8 +368,8 @@ class Program:
             try:
                 inst = self.make_exc(b[1])
             except Exception as ex:  # noqa
-                self.ctl.harness_error = 'cannot build %r: %r' % (b[1], ex)
-                return
+                self.ctl.construction_failed(b[1], ex, 'error handler')
+                raise
             pre = b[2] if len(b) > 2 else None
             if pre:
                 # the handler starts composing a response, then changes its mind and raises
@@ -381,7 +400,7 @@ class Program:
     def make_exc(self, es):
         inst = self._make_exc(es)
         if not well_formed(inst):
-            raise RuntimeError('generated class %s builds a broken instance' % es['cls'])
+            raise BrokenGeneratedClass('generated class %s builds a broken instance' % es['cls'])
         return inst
 
     def _make_exc(self, es):
@@ -942,14 +961,15 @@ class Checker:
             self.report('vary-missing', rq, {'vary': hvalues(out, 'vary'), 'missing': sorted(want_vary - got_vary),
                                              'error_vary': own_vary, 'before_raise': sorted(pre_vary or [])})
             return
-        if method == 'HEAD':
+        if method == 'HEAD' or info['status'] in (204, 304) or info['status'] < 200:
             rec.count('body.not_applicable')
             return
         body = out['body']
         ctype = essence((hvalues(out, 'content-type') or [''])[0])
+        custom_ess = {essence(t) for t in prog.custom_types}
         if not info['loose'] and any(has_surrogate(x) for x in info_strings(info)):
             rec.count('body.unpaired_surrogate_in_error')
-            if body and ((ctype in M.XML_TYPES and ctype not in prog.custom_types) or ctype == M.URLENC):
+            if body and ((ctype in M.XML_TYPES and ctype not in custom_ess) or ctype == M.URLENC):
                 # an unpaired surrogate has no XML character reference and no percent-encoded UTF-8 form: these
                 # representations cannot be faithful; JSON-based ones can (\uXXXX escape) and are judged below
                 rec.count('body.unencodable_code_points')
@@ -977,7 +997,7 @@ class Checker:
         if allowed is not None and len(allowed) > 1:
             rec.count('negotiation.tie_or_suffix')
         # ---- which representation was chosen
-        if allowed is not None and observed not in allowed:
+        if allowed is not None and observed not in {a if a == 'empty' else essence(a) for a in allowed}:
             known = None
             if observed == 'empty' and at_render and 'empty' not in allowed:
                 known = K_RENDER
@@ -993,7 +1013,7 @@ class Checker:
             return
         # ---- faithful encoding
         try:
-            if ctype in prog.custom_types:
+            if ctype in custom_ess:
                 rec.count('mon.body.configured_type')
                 if not body.startswith(CUSTOM_PREFIX):
                     raise M.Undecodable('not produced by the configured handler')
@@ -1106,7 +1126,12 @@ def _run_program(rec, spec, shrink=True):
             raise RuntimeError('harness: ' + prog.ctl.harness_error)
         rec.count('ops.request')
         chk = Checker(rec, prog, idx)
-        chk.check_request(rq, out)
+        if prog.ctl.not_constructible:
+            # "for all HTTPError subclasses with arbitrary ... " starts with being able to raise them
+            rec.count('mon.constructible')
+            chk.report('exception-not-constructible', rq, prog.ctl.not_constructible)
+        else:
+            chk.check_request(rq, out)
         raised = [e for e in prog.ctl.log if e[0] == 'raise']
         key = None
         if raised or rq.get('path') == 'noroute' or rq.get('render_nope') or rq.get('method') in ('WEBSOCKET', 'DELETE'):
@@ -1383,6 +1408,20 @@ OBS_TEXT_ACCEPTS = ['application/json, text/caf\xe9', '\xff\xfe', 'text/xml;q=0.
                     '\xa0application/json', 'application/vnd.\xe9+xml', 'image/png;q=0.9\xff',
                     'text/html;level=\xb9, application/xml', 'application/x-c04;v=\xfc;q=0.5, image/png',
                     '\xe2\x82\xac/*, text/xml;q=0.2', 'application/json\xff;q=0.5']
+COMPETING_PARAM_ACCEPTS = [
+    'application/json;v=1;q=0.9, application/json;v=1;x=2;q=0.1, application/xml;q=0.5',
+    'application/json;v=1;x=2;q=0.9, application/json;v=1;q=0.1, application/xml;q=0.5',
+    'text/xml;a=1;q=0.2, text/xml;a=1;b=2;c=3;q=0.8, application/json;q=0.5',
+    'application/xml;q=0.5, application/json;level=1;q=0.4, application/json;level=1;ext=x;q=0.6, application/json;q=0.3',
+    'application/vnd.c04+yaml;version=2;q=0.1, application/vnd.c04+yaml;a=1;b=2;q=0.9, application/json;q=0.5',
+    'application/vnd.c04+yaml;version=2;q=0.9, application/vnd.c04+yaml;a=1;b=2;q=0.1, application/json;q=0.5',
+    'application/vnd.c04+yaml;version=2;profile=full;q=0.2, application/vnd.c04+yaml;version=2;q=0.9, text/xml;q=0.5',
+    'application/vnd.c04+yaml;version=3;q=0.9, application/vnd.c04+yaml;q=0.2, application/json;q=0.5',
+    'application/*;v=1;q=0.1, application/json;v=2;w=3;q=0.7, */*;z=1;q=0.9, text/xml;q=0.6',
+    'application/json;q=0.5, application/json;q=0.9, application/json;q=0.1, text/xml;q=0.7',
+    'application/x-c04;v=1;q=0.3, application/x-c04;v=1;w=2;q=0.8, application/x-c04;q=0.1, application/json;q=0.5',
+    'text/xml;charset=utf-8;q=0.4, text/xml;charset=utf-8;x=1;q=0.9, application/xml;charset=utf-8;q=0.6, application/json;q=0.5',
+]
 ACCEPT_TYPES = ['application/json', 'text/xml', 'application/xml', CUSTOM_TYPE, '*/*', 'application/*', 'text/*',
                 'image/png', 'text/html', 'text/plain', 'application/vnd.c04+json', 'application/vnd.c04+xml',
                 'application/yaml', 'application/problem+json', 'image/svg+xml',
@@ -1406,11 +1445,22 @@ def rand_accept(rng):
         return rng.choice(MIXED_CASE_SUFFIX)
     if r < 0.26:
         return rng.choice(OBS_TEXT_ACCEPTS)
-    if r < 0.28:
+    if r < 0.33:
+        # three or more competing ranges, some carrying parameters
+        parts = []
+        for _ in range(rng.randint(3, 5)):
+            t = rng.choice(['application/json', 'text/xml', 'application/xml', CUSTOM_TYPE, 'application/vnd.c04+yaml',
+                            'application/*', '*/*'])
+            ps = ''.join(';%s=%s' % (k_, rng.choice('12')) for k_ in rng.sample(['v', 'x', 'version', 'profile', 'a'],
+                                                                                rng.randint(0, 3)))
+            parts.append(t + ps.replace('profile=1', 'profile=full').replace('profile=2', 'profile=full')
+                         + rng.choice(QVALS))
+        return ', '.join(parts)
+    if r < 0.35:
         # arbitrary header octets next to a well-formed range
         junk = ''.join(chr(rng.choice([rng.randint(0x80, 0xff), rng.randint(0x21, 0x7e)])) for _ in range(rng.randint(1, 6)))
         return rng.choice([junk, 'application/json, ' + junk, junk + ', text/xml;q=0.5', 'text/' + junk])
-    if r < 0.32:
+    if r < 0.39:
         return rng.choice([M.URLENC, M.MULTIPART, M.URLENC + ';q=0.9, application/json;q=0.1',
                            'multipart/form-data, application/json;q=0.5', 'application/*;q=0.9, application/json;q=0.1'])
     n = rng.choice([1, 1, 2, 2, 3, 4, 6])
@@ -1429,7 +1479,8 @@ def rand_cfg(rng, boom=False):
             'xml_handler': rng.random() < 0.2, 'independent': rng.random() < 0.6, 'boom': boom,
             'handlers_mode': rng.choice(['stock', 'stock', 'forms_deleted', 'replaced']),
             'warnings': 'error' if rng.random() < 0.2 else 'default',
-            'odd_handler_key': rng.choice(ODD_HANDLER_KEYS) if rng.random() < 0.08 else None}
+            'odd_handler_key': rng.choice(ODD_HANDLER_KEYS) if rng.random() < 0.08 else None,
+            'param_media': rng.random() < 0.3}
 
 
 ROOT_CHOICES = ['Exception', 'Exception', 'HTTPError', 'HTTPNotFound', 'HTTPStatus', 'ValueError', 'LookupError',
@@ -1780,9 +1831,10 @@ E3_ACCEPTS = [
     'text/xml;q=0.9,\tapplication/json;q=0.95', 'text/html, application/xhtml+xml, application/xml;q=0.9, */*;q=0.8',
     'text/html,application/xhtml+xml,image/webp;q=0.9', M.URLENC, M.MULTIPART,
     'application/*;q=0.9, application/json;q=0.1', 'multipart/form-data;q=0.9, application/json',
-] + MIXED_CASE_SUFFIX + OBS_TEXT_ACCEPTS + WEAK_ACCEPTS
+] + MIXED_CASE_SUFFIX + OBS_TEXT_ACCEPTS + COMPETING_PARAM_ACCEPTS + WEAK_ACCEPTS
 
-E3_CFGS = [{'xml': x, 'custom_media': c, 'json_handler': j, 'xml_handler': h, 'independent': True, 'handlers_mode': m}
+E3_CFGS = [{'xml': x, 'custom_media': c, 'json_handler': j, 'xml_handler': h, 'independent': True, 'handlers_mode': m,
+            'param_media': c}
            for x in (True, False) for c in (False, True) for j in ('default', 'custom', 'removed')
            for h in (False, True) for m in ('stock', 'forms_deleted', 'replaced')]
 E3_ERR = dict(E2_FULL, cls='HTTPConflict')
@@ -1790,7 +1842,7 @@ E3_ERR = dict(E2_FULL, cls='HTTPConflict')
 E4_ACCEPTS = ['application/json', 'text/xml', CUSTOM_TYPE]
 E4_FIELDS = ['title', 'description', 'href', 'href_text']
 E4_CODES = [0, 1, -1, 2 ** 31, 2 ** 70, -2 ** 63]
-E4_STATUS = [400, 418, 499, 599, 700, 999, '409 Conflict', '499 Custom Reason', '777 Lucky é', ['enum', 409]]
+E4_STATUS = [400, 418, 499, 599, 700, 998, 999, '999', '999 Last', 200, 101, '409 Conflict', '499 Custom Reason', '777 Lucky é', ['enum', 409]]
 
 
 def e4_requests():
@@ -1819,6 +1871,16 @@ def e4_requests():
             out.append({'method': 'GET', 'accept': acc,
                         'plan': [['before', None, {'cls': 'HTTPError', 'status': st, 'title': '', 'description': '',
                                                    'href': '', 'href_text': ''}]]})
+            out.append({'method': 'GET', 'accept': acc,
+                        'plan': [['responder', None, {'cls': 'HTTPError', 'status': st, 'title': 'given title',
+                                                      'headers': [['X-E', 'e']], 'hdict': True}]]})
+            if not isinstance(st, list):
+                out.append({'method': 'GET', 'accept': acc,
+                            'plan': [['responder', None, {'cls': 'HTTPStatus', 'status': st, 'headers': [['X-S', 's']],
+                                                          'text': 'status text'}]]})
+                out.append({'method': 'GET', 'accept': acc,
+                            'plan': [['mw1.resp', None, {'cls': 'HTTPStatus', 'status': st, 'headers': None,
+                                                         'text': None}]]})
     return out
 
 
@@ -1971,6 +2033,10 @@ def run(rec):
         rec.count('e2.requests', len(mine))
     # ---- E3: Accept decision table x configuration
     for cfg in E3_CFGS:
+        # quick tier: every option value and every pair with handlers_mode, not the full product
+        if quick and cfg['handlers_mode'] != 'stock' and (
+                cfg['xml_handler'] or (cfg['handlers_mode'] == 'replaced' and cfg['json_handler'] != 'default')):
+            continue
         for stack in ('wsgi', 'asgi'):
             mine = []
             for acc in E3_ACCEPTS:
@@ -1985,7 +2051,11 @@ def run(rec):
     e4 = e4_requests()
     for stack in ('wsgi', 'asgi'):
         for jh in ('default', 'custom'):
-            mine = [r for r in e4 if (idx := idx + 1) % n == me]   # noqa
+            pool = e4
+            if quick and jh == 'custom':    # second JSON handler: every 3rd string + all unpaired-surrogate cases
+                pool = [r for k_, r in enumerate(e4) if k_ % 3 == 0 or has_surrogate(
+                    ''.join(str(v_) for v_ in r['plan'][0][2].values() if isinstance(v_, str)))]
+            mine = [r for r in pool if (idx := idx + 1) % n == me]   # noqa
             base = {'stack': stack, 'cfg': {'xml': True, 'custom_media': True, 'independent': True, 'json_handler': jh},
                     'classes': [], 'handlers': {}, 'steps': []}
             chunked_program(rec, base, mine, size=200)
@@ -2008,6 +2078,9 @@ def run(rec):
     for cfg in E6_CFGS:
         for stack in ('wsgi', 'asgi'):
             base, reqs = e6_program(stack, cfg)
+            if quick:
+                reqs = [r for k_, r in enumerate(reqs) if (k_ // 6) % 2 == 0 or r.get('path') == 'noroute'
+                        or r['method'] == 'POST']      # every 2nd Accept value for 4 of the 6 outcomes
             mine = [r for r in reqs if (idx := idx + 1) % n == me]   # noqa
             chunked_program(rec, base, mine, size=200)
             rec.count('e6.requests', len(mine))
